@@ -327,7 +327,6 @@ Definition pupd (k : bytes) (g : N -> bool -> bool) (p : post) : post :=
 Section IndexProofs.
   Context {V : Type}.
   Variable enc : V -> bytes.
-  Variable dec : bytes -> V.
   Variable veqb : V -> V -> bool.
   Variable valid : V -> Prop.
 
@@ -555,7 +554,7 @@ Section IndexProofs.
     inversion Hc as [|? ? Hc1 Hc2]; subst. apply IH; [exact Hc2|].
     unfold flush_item. destruct (it_dirty it); [|exact Hw].
     destruct (it_set it) as [|n s] eqn:E; cbn [is_empty]; [now apply wf_del|].
-    apply wf_put; [|exact Hw]. split; [discriminate|]. now rewrite <- E.
+    apply wf_put; [|exact Hw]. split; [discriminate|]. first [exact Hc1 | rewrite <- E; exact Hc1].
   Qed.
 
   Lemma getset_empty_or s : (if is_empty s then None else Some s) = Some s \/ s = [].
@@ -614,20 +613,21 @@ Section IndexProofs.
     forall k n, post_step ch (post_of st) k n = post_of (st_step st ch) k n.
   Proof.
     intros Hp [Hv1 Hv2] k n. unfold post_step, post_of, st_step, pupd, gadd, gdel.
-    destruct (N.eqb_spec n (c_id ch)) as [->|Hn].
-    - rewrite <- Hp. destruct (c_prev ch) as [a|], (c_cur ch) as [c|]; cbn in Hv1, Hv2.
-      + destruct (veqb a c) eqn:E.
-        * apply (enc_veqb _ _ Hv1 Hv2) in E. now rewrite E.
-        * rewrite N.eqb_refl. cbn.
-          destruct (bytes_eqb k (enc c)) eqn:E1; [reflexivity|].
+    destruct (c_prev ch) as [a|], (c_cur ch) as [c|]; cbn in Hv1, Hv2; symmetry in Hp.
+    - destruct (veqb a c) eqn:E.
+      + apply (enc_veqb _ _ Hv1 Hv2) in E.
+        destruct (N.eqb_spec n (c_id ch)) as [->|Hn]; [|reflexivity]. now rewrite Hp, E.
+      + destruct (N.eqb_spec n (c_id ch)) as [->|Hn]; cbn.
+        * rewrite Hp. destruct (bytes_eqb k (enc c)); [reflexivity|].
           destruct (bytes_eqb k (enc a)) eqn:E2; reflexivity.
-      + rewrite N.eqb_refl. cbn. destruct (bytes_eqb k (enc a)); reflexivity.
-      + rewrite N.eqb_refl. cbn. destruct (bytes_eqb k (enc c)); reflexivity.
-      + reflexivity.
-    - apply N.eqb_neq in Hn.
-      destruct (c_prev ch) as [a|], (c_cur ch) as [c|]; try destruct (veqb a c);
-        repeat match goal with |- context [if bytes_eqb ?x ?y then _ else _] => destruct (bytes_eqb x y) end;
-        rewrite ?Hn; reflexivity.
+        * destruct (bytes_eqb k (enc c)), (bytes_eqb k (enc a)); reflexivity.
+    - destruct (N.eqb_spec n (c_id ch)) as [->|Hn]; cbn.
+      + rewrite Hp. destruct (bytes_eqb k (enc a)) eqn:E2; reflexivity.
+      + destruct (bytes_eqb k (enc a)); reflexivity.
+    - destruct (N.eqb_spec n (c_id ch)) as [->|Hn]; cbn.
+      + rewrite Hp. destruct (bytes_eqb k (enc c)); reflexivity.
+      + destruct (bytes_eqb k (enc c)); reflexivity.
+    - destruct (N.eqb_spec n (c_id ch)) as [->|Hn]; [now rewrite Hp|reflexivity].
   Qed.
 
   Lemma consistent_valid st cs : consistent_from valid st cs -> Forall change_valid cs.
@@ -688,3 +688,838 @@ Section IndexProofs.
   Lemma run_stored_valid hs : consistent valid hs -> forall n v, stored_after hs n = Some v -> valid v.
   Proof. intros Hc. apply (stored_valid _ _ Hc). discriminate. Qed.
 End IndexProofs.
+
+(* ========================= search ========================================= *)
+
+Lemma in_range_gt qk ek k : in_range (Some qk) None false k = key_matches 3 qk ek k.
+Proof.
+  unfold in_range, start_ok, end_ok, key_matches, lex_lt. cbn. rewrite andb_true_r.
+  rewrite (lex_compare_antisym qk k). destruct (lex_compare qk k); reflexivity.
+Qed.
+Lemma in_range_ge qk ek k : in_range (Some qk) None true k = key_matches 4 qk ek k.
+Proof.
+  unfold in_range, start_ok, end_ok, key_matches, lex_le. cbn. rewrite andb_true_r.
+  rewrite (lex_compare_antisym qk k). destruct (lex_compare qk k); reflexivity.
+Qed.
+Lemma in_range_lt qk ek k : in_range None (Some qk) false k = key_matches 5 qk ek k.
+Proof. unfold in_range, start_ok, end_ok, key_matches, lex_lt. cbn. destruct (lex_compare k qk); reflexivity. Qed.
+Lemma in_range_le qk ek k : in_range None (Some qk) true k = key_matches 6 qk ek k.
+Proof. unfold in_range, start_ok, end_ok, key_matches, lex_le. cbn. destruct (lex_compare k qk); reflexivity. Qed.
+Lemma in_range_range qk ek k : in_range (Some qk) (Some ek) true k = key_matches 7 qk ek k.
+Proof.
+  unfold in_range, start_ok, end_ok, key_matches, lex_le. cbn.
+  rewrite (lex_compare_antisym qk k). destruct (lex_compare qk k), (lex_compare k ek); reflexivity.
+Qed.
+Lemma key_matches_eq qk ek k : key_matches 0 qk ek k = bytes_eqb k qk.
+Proof. unfold key_matches, bytes_eqb. cbn. destruct (lex_compare k qk); reflexivity. Qed.
+Lemma key_matches_ne qk ek k : key_matches 1 qk ek k = negb (bytes_eqb k qk).
+Proof. unfold key_matches, bytes_eqb. cbn. destruct (lex_compare k qk); reflexivity. Qed.
+
+Lemma key_matches_prefix qk ek k : key_matches OP_PREFIX qk ek k = is_prefix qk k.
+Proof. reflexivity. Qed.
+
+Section SearchProofs.
+  Context {V : Type}.
+  Variable enc : V -> bytes.
+  Variable dec : bytes -> V.
+  Variable veqb : V -> V -> bool.
+  Variable valid : V -> Prop.
+  Hypothesis enc_veqb : forall a b, valid a -> valid b -> (veqb a b = true <-> enc a = enc b).
+  Hypothesis dec_valid : forall a, valid a -> valid (dec (enc a)).
+  Hypothesis dec_enc : forall a, valid a -> enc (dec (enc a)) = enc a.
+
+  Definition isenc (k : bytes) : Prop := exists v, valid v /\ enc v = k.
+
+  Lemma dec_inj k1 k2 : isenc k1 -> isenc k2 -> veqb (dec k1) (dec k2) = true -> k1 = k2.
+  Proof.
+    intros (v1 & V1 & <-) (v2 & V2 & <-) H.
+    apply (enc_veqb _ _ (dec_valid _ V1) (dec_valid _ V2)) in H.
+    now rewrite !dec_enc in H.
+  Qed.
+
+  (* distinct keys never alias in the per-Search cache *)
+  Lemma scan_sets_id kvs : forall c,
+    (forall k, In k (map fst kvs) -> isenc k) -> NoDup (map fst kvs) ->
+    (forall e, In e c -> exists k', isenc k' /\ fst e = dec k' /\ ~ In k' (map fst kvs)) ->
+    scan_sets dec veqb kvs c = map snd kvs.
+  Proof.
+    induction kvs as [|[k s] kvs IH]; intros c He Hnd Hc; cbn [scan_sets map]; [reflexivity|].
+    cbn [map fst] in He, Hnd. inversion Hnd as [|? ? Hn1 Hn2]; subst.
+    destruct (find (fun e => veqb (fst e) (dec k)) c) as [e|] eqn:F.
+    - exfalso. apply find_some in F. destruct F as [F1 F2].
+      destruct (Hc _ F1) as (k' & K1 & K2 & K3). rewrite K2 in F2.
+      apply dec_inj in F2; [|exact K1|apply He; now left]. apply K3. cbn. now left.
+    - cbn [snd]. f_equal. apply IH.
+      + intros k0 H0. apply He. now right.
+      + exact Hn2.
+      + intros e [<-|Hin].
+        * exists k. split; [apply He; now left|]. split; [reflexivity|exact Hn1].
+        * destruct (Hc _ Hin) as (k' & K1 & K2 & K3). exists k'. split; [exact K1|]. split; [exact K2|].
+          intros H. apply K3. cbn. now right.
+  Qed.
+
+  Lemma scan_result b sel :
+    wf_bucket b -> (forall k, In k sel -> isenc k) -> NoDup sel ->
+    NoDup (collect (scan_sets dec veqb (kvs_of b sel) [])) /\
+    forall n, In n (collect (scan_sets dec veqb (kvs_of b sel) [])) <-> exists k, In k sel /\ In n (getset k b).
+  Proof.
+    intros Hw He Hnd.
+    assert (Hfst : map fst (kvs_of b sel) = sel).
+    { unfold kvs_of. rewrite map_map. cbn. apply map_id. }
+    rewrite scan_sets_id; [| now rewrite Hfst | now rewrite Hfst | intros e []].
+    assert (Hsnd : map snd (kvs_of b sel) = map (fun k => getset k b) sel).
+    { unfold kvs_of. rewrite map_map. reflexivity. }
+    rewrite Hsnd. split.
+    - apply collect_NoDup. apply Forall_forall. intros s Hs. apply in_map_iff in Hs.
+      destruct Hs as [k [<- _]]. now apply getset_NoDup.
+    - intros n. rewrite collect_In. split.
+      + intros [s [Hs Hn]]. apply in_map_iff in Hs. destruct Hs as [k [<- Hk]]. eauto.
+      + intros [k [Hk Hn]]. exists (getset k b). split; [|exact Hn]. apply in_map_iff. eauto.
+  Qed.
+
+  Lemma filter_sel (f : bytes -> bool) b : wf_bucket b ->
+    NoDup (filter f (b_keys b)) /\
+    forall n, (exists k, In k (filter f (b_keys b)) /\ In n (getset k b)) <->
+              (exists k, In n (getset k b) /\ f k = true).
+  Proof.
+    intros Hw. split; [apply NoDup_filter, ksorted_NoDup, (proj1 Hw)|].
+    intros n. split.
+    - intros [k [Hk Hn]]. apply filter_In in Hk. exists k. tauto.
+    - intros [k [Hn Hf]]. exists k. split; [|exact Hn]. apply filter_In. split; [|exact Hf].
+      eapply getset_key; eauto.
+  Qed.
+
+  (* Search at the level of keys: the ids posted under the keys the operator selects *)
+  Theorem search_keys b op q e :
+    wf_bucket b -> (forall k, In k (b_keys b) -> isenc k) -> op_scan op ->
+    exists r, search enc dec veqb op q e b = Some r /\ NoDup r /\
+      forall n, In n r <-> exists k, In n (getset k b) /\ key_matches op (enc q) (enc e) k = true.
+  Proof.
+    intros Hw He Hop.
+    assert (Hs : ksorted (b_keys b)) by exact (proj1 Hw).
+    assert (Hsel : forall f, (forall k, In k (filter f (b_keys b)) -> isenc k)).
+    { intros f k Hk. apply filter_In in Hk. apply He. tauto. }
+    assert (Hscan : forall f, exists r,
+               Some (collect (scan_sets dec veqb (kvs_of b (filter f (b_keys b))) [])) = Some r /\ NoDup r /\
+               forall n, In n r <-> exists k, In n (getset k b) /\ f k = true).
+    { intros f. eexists. split; [reflexivity|].
+      destruct (filter_sel f b Hw) as [Hnd Hiff].
+      destruct (scan_result b _ Hw (Hsel f) Hnd) as [R1 R2].
+      split; [exact R1|]. intros n. rewrite R2. apply Hiff. }
+    assert (Hext : forall f g, (forall k, f k = g k) ->
+               (exists r, Some (collect (scan_sets dec veqb (kvs_of b (filter f (b_keys b))) [])) = Some r /\ NoDup r /\
+                  forall n, In n r <-> exists k, In n (getset k b) /\ f k = true) ->
+               (exists r, Some (collect (scan_sets dec veqb (kvs_of b (filter f (b_keys b))) [])) = Some r /\ NoDup r /\
+                  forall n, In n r <-> exists k, In n (getset k b) /\ g k = true)).
+    { intros f g Hfg (r & R1 & R2 & R3). exists r. split; [exact R1|]. split; [exact R2|].
+      intros n. rewrite R3. split; intros [k [K1 K2]]; exists k; split; auto; congruence. }
+    unfold search, search_with.
+    destruct Hop as [->|[->|[->|[->|[->|[->|[->| ->]]]]]]].
+    - (* equals *)
+      exists (getset (enc q) b). split; [reflexivity|]. split; [now apply getset_NoDup|].
+      intros n. split.
+      + intros H. exists (enc q). split; [exact H|]. rewrite key_matches_eq. apply bytes_eqb_refl.
+      + intros [k [H1 H2]]. rewrite key_matches_eq in H2. apply bytes_eqb_eq in H2. now subst.
+    - (* notEquals *)
+      apply (Hext (fun k => negb (bytes_eqb k (enc q)))); [|apply Hscan].
+      intros k. now rewrite key_matches_ne.
+    - (* startsWith *)
+      rewrite (bbolt_prefix_spec _ _ Hs). apply (Hext (is_prefix (enc q))); [|apply Hscan]. reflexivity.
+    - rewrite (bbolt_range_spec _ _ _ _ Hs). apply (Hext _ _ (in_range_gt (enc q) (enc e))). apply Hscan.
+    - rewrite (bbolt_range_spec _ _ _ _ Hs). apply (Hext _ _ (in_range_ge (enc q) (enc e))). apply Hscan.
+    - rewrite (bbolt_range_spec _ _ _ _ Hs). apply (Hext _ _ (in_range_lt (enc q) (enc e))). apply Hscan.
+    - rewrite (bbolt_range_spec _ _ _ _ Hs). apply (Hext _ _ (in_range_le (enc q) (enc e))). apply Hscan.
+    - rewrite (bbolt_range_spec _ _ _ _ Hs). apply (Hext _ _ (in_range_range (enc q) (enc e))). apply Hscan.
+  Qed.
+
+  (* whatever the operator, a returned id is posted under some key *)
+  Lemma scan_sets_sub kvs : forall c s, In s (scan_sets dec veqb kvs c) ->
+    In s (map snd kvs) \/ In s (map snd c).
+  Proof.
+    induction kvs as [|[k s0] kvs IH]; intros c s H; cbn [scan_sets] in H; [destruct H|].
+    destruct (find (fun e => veqb (fst e) (dec k)) c) as [e|] eqn:F; destruct H as [<-|H].
+    - right. apply in_map. apply find_some in F. tauto.
+    - destruct (IH _ _ H) as [H'|H']; [left; cbn; auto|auto].
+    - left. cbn. auto.
+    - destruct (IH _ _ H) as [H'|H']; [left; cbn; auto|]. cbn in H'. destruct H' as [<-|H']; [left; cbn; auto|auto].
+  Qed.
+
+  Lemma search_sound_any range prefix op q e b r n :
+    search_with enc dec veqb range prefix op q e b = Some r -> In n r -> exists k, In n (getset k b).
+  Proof.
+    assert (Hscan : forall sel r, Some (collect (scan_sets dec veqb (kvs_of b sel) [])) = Some r ->
+                      In n r -> exists k, In n (getset k b)).
+    { intros sel r0 E Hn. inversion E; subst. apply collect_In in Hn. destruct Hn as [s [Hs Hn]].
+      apply scan_sets_sub in Hs. destruct Hs as [Hs|[]].
+      unfold kvs_of in Hs. rewrite map_map in Hs. apply in_map_iff in Hs. destruct Hs as [k [<- _]]. eauto. }
+    unfold search_with. intros H Hn.
+    destruct op as [|p]; [inversion H; subst; eauto|].
+    do 3 (try match goal with p0 : positive |- _ => destruct p0; try discriminate end); eauto.
+  Qed.
+
+  (* both store backends give the same answer *)
+  Theorem backends_agree b op q e : ksorted (b_keys b) ->
+    search_mem enc dec veqb op q e b = search enc dec veqb op q e b.
+  Proof.
+    intros Hs. unfold search_mem, search, search_with.
+    rewrite !mem_range_spec, !bbolt_range_spec by exact Hs.
+    unfold mem_prefix. rewrite bbolt_prefix_spec by exact Hs. reflexivity.
+  Qed.
+
+  (* Search after a consistent history, in terms of the stored values' keys *)
+  Theorem search_hist_keys hs op q e :
+    consistent valid hs -> op_scan op ->
+    exists r, search enc dec veqb op q e (run_history enc veqb hs) = Some r /\ NoDup r /\
+      forall n, In n r <-> exists v, stored_after hs n = Some v /\
+                                     key_matches op (enc q) (enc e) (enc v) = true.
+  Proof.
+    intros Hc Hop.
+    pose proof (run_wf enc veqb valid enc_veqb hs Hc) as Hw.
+    destruct (postings_inv enc veqb valid enc_veqb hs Hc) as (_ & _ & Hp).
+    pose proof (run_stored_valid valid hs Hc) as Hsv.
+    assert (Hkeys : forall k, In k (b_keys (run_history enc veqb hs)) -> isenc k).
+    { intros k Hk. destruct (key_getset _ _ Hw Hk) as [n Hn]. apply Hp in Hn.
+      destruct Hn as [v [S1 S2]]. exists v. split; [eapply Hsv; eauto|exact S2]. }
+    destruct (search_keys _ op q e Hw Hkeys Hop) as (r & R1 & R2 & R3).
+    exists r. split; [exact R1|]. split; [exact R2|]. intros n. rewrite R3. split.
+    - intros [k [K1 K2]]. apply Hp in K1. destruct K1 as [v [S1 S2]]. exists v. split; [exact S1|now subst k].
+    - intros [v [S1 S2]]. exists (enc v). split; [apply Hp; eauto|exact S2].
+  Qed.
+
+  (* ---- values: an order-embedding encoder ---- *)
+  Variable vcmp : V -> V -> comparison.
+  Hypothesis enc_cmp : forall a b, valid a -> valid b -> lex_compare (enc a) (enc b) = vcmp a b.
+
+  Theorem search_values hs op q e :
+    consistent valid hs -> valid q -> valid e -> op_num op ->
+    exists r, search enc dec veqb op q e (run_history enc veqb hs) = Some r /\ NoDup r /\
+      forall n, In n r <-> exists v, stored_after hs n = Some v /\
+                                     cmp_matches op (vcmp v q) (vcmp v e) = true.
+  Proof.
+    intros Hc Hq He Hop.
+    pose proof (run_stored_valid valid hs Hc) as Hsv.
+    assert (Hop' : op_scan op) by (unfold op_num, op_scan in *; intuition).
+    destruct (search_hist_keys hs op q e Hc Hop') as (r & R1 & R2 & R3).
+    exists r. split; [exact R1|]. split; [exact R2|]. intros n. rewrite R3.
+    assert (Hk : forall v, valid v ->
+               key_matches op (enc q) (enc e) (enc v) = cmp_matches op (vcmp v q) (vcmp v e)).
+    { intros v Hv. unfold key_matches.
+      replace (op =? OP_PREFIX) with false
+        by (unfold op_num, OP_PREFIX in *; symmetry; apply N.eqb_neq; lia).
+      now rewrite !enc_cmp by assumption. }
+    split; intros [v [S1 S2]]; exists v; (split; [exact S1|]);
+      [rewrite <- Hk|rewrite Hk]; eauto.
+  Qed.
+
+  Theorem absent_never_matches hs n :
+    consistent valid hs -> stored_after hs n = None ->
+    (forall k, set_mem n (getset k (run_history enc veqb hs)) = false) /\
+    (forall op q e r, search enc dec veqb op q e (run_history enc veqb hs) = Some r -> ~ In n r) /\
+    (forall op q e r, search_mem enc dec veqb op q e (run_history enc veqb hs) = Some r -> ~ In n r).
+  Proof.
+    intros Hc Hn.
+    destruct (postings_inv enc veqb valid enc_veqb hs Hc) as (_ & _ & Hp).
+    assert (Hno : forall k, ~ In n (getset k (run_history enc veqb hs))).
+    { intros k H. apply Hp in H. destruct H as [v [S1 _]]. congruence. }
+    split; [intros k; apply set_mem_false, Hno|]. split.
+    - intros op q e r H Hin. destruct (search_sound_any _ _ _ _ _ _ _ _ H Hin) as [k Hk]. exact (Hno k Hk).
+    - intros op q e r H Hin. destruct (search_sound_any _ _ _ _ _ _ _ _ H Hin) as [k Hk]. exact (Hno k Hk).
+  Qed.
+End SearchProofs.
+
+(* ========================= instances ====================================== *)
+
+(* ---- integers ---- *)
+Lemma int_enc_veqb a b : in_i64 a -> in_i64 b -> (Z.eqb a b = true <-> enc_i64 a = enc_i64 b).
+Proof.
+  intros Ha Hb. rewrite Z.eqb_eq, <- lex_compare_eq, enc_i64_compare by assumption.
+  symmetry. apply Z.compare_eq_iff.
+Qed.
+Lemma int_dec_valid a : in_i64 a -> in_i64 (dec_i64 (enc_i64 a)).
+Proof. intros Ha. now rewrite dec_enc_i64. Qed.
+Lemma int_dec_enc a : in_i64 a -> enc_i64 (dec_i64 (enc_i64 a)) = enc_i64 a.
+Proof. intros Ha. now rewrite dec_enc_i64. Qed.
+
+Theorem int_postings_inv hs : consistent in_i64 hs ->
+  let b := int_run hs in
+  ksorted (b_keys b) /\
+  (forall k s, b_get k b = Some s -> s <> [] /\ NoDup s) /\
+  (forall k n, In n (getset k b) <-> exists v, stored_after hs n = Some v /\ enc_i64 v = k).
+Proof. exact (postings_inv enc_i64 Z.eqb in_i64 int_enc_veqb hs). Qed.
+
+Theorem int_search_exact hs op q e :
+  consistent in_i64 hs -> in_i64 q -> in_i64 e -> op_num op ->
+  exists r, int_search op q e (int_run hs) = Some r /\
+    same_set r (fun n => exists v, stored_after hs n = Some v /\ matches_int op q e v = true).
+Proof.
+  intros Hc Hq He Hop.
+  destruct (search_values enc_i64 dec_i64 Z.eqb in_i64 int_enc_veqb int_dec_valid int_dec_enc
+              Z.compare enc_i64_compare hs op q e Hc Hq He Hop) as (r & R1 & R2 & R3).
+  exists r. split; [exact R1|]. split; [exact R2|exact R3].
+Qed.
+
+(* ---- floats ---- *)
+Lemma flt_enc_veqb a b : f64_valid a -> f64_valid b -> (f64_eq a b = true <-> enc_f64 a = enc_f64 b).
+Proof.
+  intros [Ha _] [Hb _]. unfold f64_eq. rewrite Z.eqb_eq, <- lex_compare_eq, enc_f64_compare by assumption.
+  symmetry. apply Z.compare_eq_iff.
+Qed.
+Lemma flt_norm_valid a : f64_valid a -> f64_valid (if f64_is_zero a then 0 else a).
+Proof. intros Ha. destruct (f64_is_zero a); [split; reflexivity|exact Ha]. Qed.
+Lemma flt_dec_valid a : f64_valid a -> f64_valid (dec_f64 (enc_f64 a)).
+Proof. intros Ha. rewrite dec_enc_f64 by exact (proj1 Ha). now apply flt_norm_valid. Qed.
+Lemma flt_dec_enc a : f64_valid a -> enc_f64 (dec_f64 (enc_f64 a)) = enc_f64 a.
+Proof.
+  intros Ha. rewrite dec_enc_f64 by exact (proj1 Ha).
+  apply (flt_enc_veqb _ _ (flt_norm_valid a Ha) Ha). apply f64_eq_norm.
+Qed.
+Lemma flt_enc_cmp a b : f64_valid a -> f64_valid b ->
+  lex_compare (enc_f64 a) (enc_f64 b) = Z.compare (f64_ord a) (f64_ord b).
+Proof. intros [Ha _] [Hb _]. now apply enc_f64_compare. Qed.
+
+Theorem flt_postings_inv hs : consistent f64_valid hs ->
+  let b := flt_run hs in
+  ksorted (b_keys b) /\
+  (forall k s, b_get k b = Some s -> s <> [] /\ NoDup s) /\
+  (forall k n, In n (getset k b) <-> exists v, stored_after hs n = Some v /\ enc_f64 v = k).
+Proof. exact (postings_inv enc_f64 f64_eq f64_valid flt_enc_veqb hs). Qed.
+
+Theorem flt_search_exact hs op q e :
+  consistent f64_valid hs -> f64_valid q -> f64_valid e -> op_num op ->
+  exists r, flt_search op q e (flt_run hs) = Some r /\
+    same_set r (fun n => exists v, stored_after hs n = Some v /\ matches_float op q e v = true).
+Proof.
+  intros Hc Hq He Hop.
+  destruct (search_values enc_f64 dec_f64 f64_eq f64_valid flt_enc_veqb flt_dec_valid flt_dec_enc
+              (fun a b => Z.compare (f64_ord a) (f64_ord b)) flt_enc_cmp hs op q e Hc Hq He Hop) as (r & R1 & R2 & R3).
+  exists r. split; [exact R1|]. split; [exact R2|exact R3].
+Qed.
+
+(* ---- strings ---- *)
+Lemma str_enc_veqb a b : any_str a -> any_str b -> (bytes_eqb a b = true <-> enc_str a = enc_str b).
+Proof. intros _ _. apply bytes_eqb_eq. Qed.
+Lemma str_dec_valid a : any_str a -> any_str (dec_str (enc_str a)).
+Proof. intros _. exact I. Qed.
+Lemma str_dec_enc a : any_str a -> enc_str (dec_str (enc_str a)) = enc_str a.
+Proof. reflexivity. Qed.
+
+Section StrProofs.
+  Variable fold : bytes -> bytes.
+
+  Lemma stored_from_fold cs : forall st st', (forall n, st' n = option_map fold (st n)) ->
+    forall n, stored_from st' (map (str_change fold) cs) n = option_map fold (stored_from st cs n).
+  Proof.
+    induction cs as [|ch cs IH]; intros st st' H n; cbn; [apply H|].
+    apply IH. intros m. unfold st_step. cbn. destruct (m =? c_id ch); [reflexivity|apply H].
+  Qed.
+
+  Lemma consistent_from_fold cs : forall st st', (forall n, st' n = option_map fold (st n)) ->
+    consistent_from any_str st cs -> consistent_from any_str st' (map (str_change fold) cs).
+  Proof.
+    induction cs as [|ch cs IH]; intros st st' H Hc; cbn; [exact I|].
+    cbn in Hc. destruct Hc as (H1 & _ & _ & H4).
+    split; [rewrite H, <- H1; reflexivity|].
+    split; [destruct (c_prev ch); exact I|]. split; [destruct (c_cur ch); exact I|].
+    eapply IH; [|exact H4]. intros m. unfold st_step. cbn. destruct (m =? c_id ch); [reflexivity|apply H].
+  Qed.
+
+  Lemma stored_after_fold hs n :
+    stored_after (map (map (str_change fold)) hs) n = option_map fold (stored_after hs n).
+  Proof. unfold stored_after. rewrite <- concat_map. now apply stored_from_fold. Qed.
+
+  Lemma consistent_fold hs : consistent any_str hs -> consistent any_str (map (map (str_change fold)) hs).
+  Proof. unfold consistent. rewrite <- concat_map. now apply consistent_from_fold. Qed.
+
+  Theorem str_postings_inv hs : consistent any_str hs ->
+    let b := str_run fold hs in
+    ksorted (b_keys b) /\
+    (forall k s, b_get k b = Some s -> s <> [] /\ NoDup s) /\
+    (forall k n, In n (getset k b) <-> exists x, stored_after hs n = Some x /\ fold x = k).
+  Proof.
+    intros Hc. cbn zeta. unfold str_run.
+    destruct (postings_inv enc_str bytes_eqb any_str str_enc_veqb _ (consistent_fold hs Hc)) as (P1 & P2 & P3).
+    split; [exact P1|]. split; [exact P2|]. intros k n. rewrite P3. split.
+    - intros [v [S1 S2]]. rewrite stored_after_fold in S1. destruct (stored_after hs n) as [x|]; [|discriminate].
+      exists x. split; [reflexivity|]. cbn in S1. injection S1 as <-. exact S2.
+    - intros [x [S1 S2]]. exists (fold x). split; [|exact S2]. rewrite stored_after_fold, S1. reflexivity.
+  Qed.
+
+  Theorem str_search_exact hs op q e :
+    consistent any_str hs -> op_scan op ->
+    exists r, str_search fold op q e (str_run fold hs) = Some r /\
+      same_set r (fun n => exists x, stored_after hs n = Some x /\
+                                     matches_str op (fold q) (fold e) (fold x) = true).
+  Proof.
+    intros Hc Hop. unfold str_search, str_run.
+    destruct (search_hist_keys enc_str dec_str bytes_eqb any_str str_enc_veqb str_dec_valid str_dec_enc
+                _ op (fold q) (fold e) (consistent_fold hs Hc) Hop) as (r & R1 & R2 & R3).
+    exists r. split; [exact R1|]. split; [exact R2|]. intros n. rewrite R3. split.
+    - intros [v [S1 S2]]. rewrite stored_after_fold in S1. destruct (stored_after hs n) as [x|]; [|discriminate].
+      exists x. split; [reflexivity|]. cbn in S1. injection S1 as <-. exact S2.
+    - intros [x [S1 S2]]. exists (fold x). split; [|exact S2]. rewrite stored_after_fold, S1. reflexivity.
+  Qed.
+End StrProofs.
+
+(* ========================= string arrays ================================== *)
+
+Lemma mem_bytes_In x l : mem_bytes x l = true <-> In x l.
+Proof.
+  unfold mem_bytes. rewrite existsb_exists. split.
+  - intros [y [H1 H2]]. apply bytes_eqb_eq in H2. now subst.
+  - intros H. exists x. split; [exact H|apply bytes_eqb_refl].
+Qed.
+
+Lemma mem_bytes_filter k f l : mem_bytes k (filter f l) = mem_bytes k l && f k.
+Proof.
+  apply eq_true_iff_eq. rewrite andb_true_iff, !mem_bytes_In, filter_In. tauto.
+Qed.
+
+Lemma mem_v_bytes v l : mem_v bytes_eqb v l = mem_bytes v l.
+Proof. reflexivity. Qed.
+
+Lemma mem_bytes_dedup k l : mem_bytes k (dedup_v bytes_eqb l) = mem_bytes k l.
+Proof.
+  induction l as [|x l IH]; cbn [dedup_v]; [reflexivity|].
+  destruct (mem_v bytes_eqb x l) eqn:E; cbn.
+  - rewrite IH. destruct (bytes_eqb k x) eqn:F; [|reflexivity].
+    apply bytes_eqb_eq in F. subst. rewrite mem_v_bytes in E. now rewrite E.
+  - fold (mem_bytes k (dedup_v bytes_eqb l)). fold (mem_bytes k l). now rewrite IH.
+Qed.
+
+Definition spost_steps := post_steps enc_str bytes_eqb.
+
+Lemma ins_steps id l : forall p k n,
+  spost_steps (map (fun v => mkChange id None (Some v)) l) p k n = p k n || ((n =? id) && mem_bytes k l).
+Proof.
+  unfold spost_steps, post_steps. induction l as [|v l IH]; intros p k n; cbn [map fold_left].
+  - cbn. now rewrite andb_false_r, orb_false_r.
+  - rewrite IH. unfold post_step, pupd, gadd, enc_str, mem_bytes. cbn.
+    destruct (bytes_eqb k v), (n =? id), (p k n), (existsb (bytes_eqb k) l); reflexivity.
+Qed.
+
+Lemma del_steps id l : forall p k n,
+  spost_steps (map (fun v => mkChange id (Some v) None) l) p k n = p k n && negb ((n =? id) && mem_bytes k l).
+Proof.
+  unfold spost_steps, post_steps. induction l as [|v l IH]; intros p k n; cbn [map fold_left].
+  - cbn. now rewrite andb_false_r, andb_true_r.
+  - rewrite IH. unfold post_step, pupd, gdel, enc_str, mem_bytes. cbn.
+    destruct (bytes_eqb k v), (n =? id), (p k n), (existsb (bytes_eqb k) l); reflexivity.
+Qed.
+
+Lemma arr_expand_steps a p :
+  (forall k, p k (a_id a) = mem_bytes k (a_prev a)) ->
+  forall k n, spost_steps (arr_expand bytes_eqb a) p k n = if n =? a_id a then mem_bytes k (a_cur a) else p k n.
+Proof.
+  intros Hp k n. unfold arr_expand, spost_steps. rewrite post_steps_app.
+  fold spost_steps. rewrite del_steps, ins_steps.
+  rewrite !mem_bytes_filter, mem_bytes_dedup. cbv beta.
+  change (mem_v bytes_eqb k (a_prev a)) with (mem_bytes k (a_prev a)).
+  change (mem_v bytes_eqb k (a_cur a)) with (mem_bytes k (a_cur a)).
+  destruct (N.eqb_spec n (a_id a)) as [->|Hn]; cbn [andb orb negb].
+  - rewrite Hp. destruct (mem_bytes k (a_prev a)), (mem_bytes k (a_cur a)); reflexivity.
+  - now rewrite orb_false_r, andb_true_r.
+Qed.
+
+Definition post_of_arr (st : N -> list bytes) : post := fun k n => mem_bytes k (st n).
+
+Lemma arr_steps_consistent cs : forall st, aconsistent_from st cs ->
+  forall k n, spost_steps (flat_map (arr_expand bytes_eqb) cs) (post_of_arr st) k n
+              = post_of_arr (fold_left ast_step cs st) k n.
+Proof.
+  induction cs as [|a cs IH]; intros st Hc k n; cbn [flat_map fold_left]; [reflexivity|].
+  cbn in Hc. destruct Hc as [H1 H2].
+  unfold spost_steps. rewrite post_steps_app. fold spost_steps.
+  unfold spost_steps. rewrite (post_steps_ext enc_str bytes_eqb _ _ (post_of_arr (ast_step st a))).
+  - apply IH. exact H2.
+  - intros k' n'. fold spost_steps. rewrite arr_expand_steps.
+    + unfold post_of_arr, ast_step. destruct (n' =? a_id a); reflexivity.
+    + intros k0. unfold post_of_arr. now rewrite H1.
+Qed.
+
+Lemma arr_run_unfold hs : forall b,
+  fold_left (arr_apply_batch enc_str bytes_eqb) hs b
+  = fold_left (apply_batch enc_str bytes_eqb) (map (flat_map (arr_expand bytes_eqb)) hs) b.
+Proof. induction hs as [|cs hs IH]; intros b; cbn; [reflexivity|]. apply IH. Qed.
+
+Lemma concat_flat_map {A B} (f : A -> list B) (hs : list (list A)) :
+  concat (map (flat_map f) hs) = flat_map f (concat hs).
+Proof.
+  induction hs as [|cs hs IH]; cbn; [reflexivity|]. rewrite IH. symmetry. apply flat_map_app.
+Qed.
+
+Lemma all_changes_valid (cs : list (@change bytes)) : Forall (change_valid any_str) cs.
+Proof. apply Forall_forall. intros ch _. split; [destruct (c_prev ch)|destruct (c_cur ch)]; exact I. Qed.
+
+Lemma arr_inv hs : aconsistent hs ->
+  let b := arr_run_history enc_str bytes_eqb hs in
+  wf_bucket b /\ forall k n, In n (getset k b) <-> In k (astored_after hs n).
+Proof.
+  intros Hc. cbn zeta. unfold arr_run_history. rewrite arr_run_unfold.
+  destruct (history_inv enc_str bytes_eqb any_str str_enc_veqb (map (flat_map (arr_expand bytes_eqb)) hs)
+              [] (fun _ _ => false) wf_nil represents_nil (all_changes_valid _)) as [Hw Hr].
+  split; [exact Hw|]. intros k n. rewrite <- set_mem_In, (Hr k n), concat_flat_map.
+  rewrite (post_steps_ext enc_str bytes_eqb _ _ (post_of_arr (fun _ => []))) by reflexivity.
+  fold spost_steps. rewrite (arr_steps_consistent _ _ Hc). unfold post_of_arr.
+  fold (astored_after hs). apply mem_bytes_In.
+Qed.
+
+Section StrArrProofs.
+  Variable fold : bytes -> bytes.
+
+  Lemma astored_fold cs : forall st st', (forall n, st' n = map fold (st n)) ->
+    forall n, fold_left ast_step (map (sarr_change fold) cs) st' n = map fold (fold_left ast_step cs st n).
+  Proof.
+    induction cs as [|a cs IH]; intros st st' H n; cbn; [apply H|].
+    apply IH. intros m. unfold ast_step. cbn. destruct (m =? a_id a); [reflexivity|apply H].
+  Qed.
+
+  Lemma aconsistent_fold cs : forall st st', (forall n, st' n = map fold (st n)) ->
+    aconsistent_from st cs -> aconsistent_from st' (map (sarr_change fold) cs).
+  Proof.
+    induction cs as [|a cs IH]; intros st st' H Hc; cbn; [exact I|].
+    cbn in Hc. destruct Hc as [H1 H2]. split; [now rewrite H, H1|].
+    eapply IH; [|exact H2]. intros m. unfold ast_step. cbn. destruct (m =? a_id a); [reflexivity|apply H].
+  Qed.
+
+  Theorem sarr_postings_inv hs : aconsistent hs ->
+    let b := sarr_run fold hs in
+    ksorted (b_keys b) /\
+    (forall k s, b_get k b = Some s -> s <> [] /\ NoDup s) /\
+    (forall k n, In n (getset k b) <-> In k (map fold (astored_after hs n))).
+  Proof.
+    intros Hc. cbn zeta. unfold sarr_run.
+    assert (Hc' : aconsistent (map (map (sarr_change fold)) hs)).
+    { unfold aconsistent in *. rewrite <- concat_map. eapply aconsistent_fold; [|exact Hc]. reflexivity. }
+    destruct (arr_inv _ Hc') as [Hw Hr].
+    split; [exact (proj1 Hw)|]. split; [intros k s Hg; exact (wf_get _ _ _ Hw Hg)|].
+    intros k n. rewrite Hr. unfold astored_after. rewrite <- concat_map.
+    rewrite (astored_fold _ (fun _ => []) (fun _ => [])) by reflexivity. reflexivity.
+  Qed.
+
+  Theorem sarr_search_exact hs op qs :
+    aconsistent hs -> qs <> [] -> op = OP_ALL \/ op = OP_ANY ->
+    exists r, sarr_search fold op qs (sarr_run fold hs) = Some r /\
+      same_set r (fun n =>
+        (if op =? OP_ALL then forallb (fun x => mem_bytes x (map fold (astored_after hs n))) (map fold qs)
+         else existsb (fun x => mem_bytes x (map fold (astored_after hs n))) (map fold qs)) = true).
+  Proof.
+    intros Hc Hne Hop.
+    destruct (sarr_postings_inv hs Hc) as (P1 & P2 & P3).
+    set (b := sarr_run fold hs) in *.
+    assert (Hw : wf_bucket b).
+    { split; [exact P1|]. apply Forall_forall. intros [k s] Hin. cbn. apply (P2 k).
+      pose proof (ksorted_NoDup _ P1) as Hnd. clear -Hin Hnd.
+      induction b as [|[k0 s0] b IH]; [destruct Hin|]. cbn in *. inversion Hnd as [|? ? Hn1 Hn2]; subst.
+      destruct Hin as [E|Hin].
+      - inversion E; subst. now rewrite bytes_eqb_refl.
+      - destruct (bytes_eqb k k0) eqn:F; [|now apply IH].
+        apply bytes_eqb_eq in F. subst. exfalso. apply Hn1. change k0 with (fst (k0, s)). now apply in_map. }
+    unfold sarr_search, arr_search.
+    set (res := map (fun q => getset (enc_str q) b) (map fold qs)).
+    assert (Hres : Forall (@NoDup N) res).
+    { apply Forall_forall. intros s Hs. apply in_map_iff in Hs. destruct Hs as [q [<- _]]. now apply getset_NoDup. }
+    assert (Hin : forall n s, In s res -> (In n s <-> exists q, In q (map fold qs) /\
+                     s = getset q b /\ mem_bytes q (map fold (astored_after hs n)) = true)).
+    { intros n s Hs. apply in_map_iff in Hs. destruct Hs as [q [<- Hq]]. unfold enc_str. split.
+      - intros H. exists q. split; [exact Hq|]. split; [reflexivity|]. apply mem_bytes_In. now apply P3.
+      - intros [q' [_ [E H]]]. rewrite E. apply P3. now apply mem_bytes_In. }
+    assert (Hall : forall n, (forall s, In s res -> In n s) <->
+              forallb (fun x => mem_bytes x (map fold (astored_after hs n))) (map fold qs) = true).
+    { intros n. rewrite forallb_forall. split.
+      - intros H q Hq. apply mem_bytes_In, P3. apply H. unfold res. apply in_map_iff. exists q. auto.
+      - intros H s Hs. apply in_map_iff in Hs. destruct Hs as [q [<- Hq]]. apply P3. apply mem_bytes_In. now apply H. }
+    assert (Hany : forall n, (exists s, In s res /\ In n s) <->
+              existsb (fun x => mem_bytes x (map fold (astored_after hs n))) (map fold qs) = true).
+    { intros n. rewrite existsb_exists. split.
+      - intros [s [Hs Hn]]. apply in_map_iff in Hs. destruct Hs as [q [<- Hq]]. exists q. split; [exact Hq|].
+        apply mem_bytes_In. now apply P3.
+      - intros [q [Hq H]]. exists (getset q b). split; [unfold res; apply in_map_iff; exists q; auto|].
+        apply P3. now apply mem_bytes_In. }
+    assert (Hresne : res <> []) by (unfold res; destruct qs; [congruence|discriminate]).
+    destruct (map fold qs) as [|q1 qs'] eqn:Eq; [destruct qs; [congruence|discriminate]|].
+    destruct Hop as [-> | ->]; cbn [N.eqb OP_ALL OP_ANY Pos.eqb].
+    - (* containsAll *)
+      destruct res as [|r1 [|r2 rr]] eqn:Er; [congruence| |].
+      + exists r1. split; [reflexivity|]. split; [now inversion Hres|].
+        intros n. rewrite <- Hall. split; [intros H s [<-|[]]; exact H|intros H; apply H; now left].
+      + exists (fast_and (r1 :: r2 :: rr)). split; [reflexivity|]. split; [now apply fast_and_NoDup|].
+        intros n. rewrite <- Hall. now apply fast_and_In.
+    - (* containsAny *)
+      destruct res as [|r1 [|r2 rr]] eqn:Er; [congruence| |].
+      + exists r1. split; [reflexivity|]. split; [now inversion Hres|].
+        intros n. rewrite <- Hany. split; [intros H; exists r1; cbn; auto|intros [s [[<-|[]] H]]; exact H].
+      + exists (fast_or (r1 :: r2 :: rr)). split; [reflexivity|]. split; [apply fast_or_NoDup|].
+        intros n. rewrite <- Hany. apply fast_or_In.
+  Qed.
+
+  Theorem sarr_absent hs n : aconsistent hs -> astored_after hs n = [] ->
+    forall k, ~ In n (getset k (sarr_run fold hs)).
+  Proof.
+    intros Hc Hn k H. destruct (sarr_postings_inv hs Hc) as (_ & _ & P3).
+    apply P3 in H. rewrite Hn in H. destruct H.
+  Qed.
+End StrArrProofs.
+
+(* ========================= boolean combinations =========================== *)
+
+Lemma mem_ids_inter x a b : mem_bytes x (ids_inter a b) = mem_bytes x a && mem_bytes x b.
+Proof. unfold ids_inter. apply mem_bytes_filter. Qed.
+
+Lemma mem_ids_union x a b : mem_bytes x (ids_union a b) = mem_bytes x a || mem_bytes x b.
+Proof.
+  apply eq_true_iff_eq. rewrite orb_true_iff, !mem_bytes_In. unfold ids_union.
+  rewrite in_app_iff, filter_In, negb_true_iff. split.
+  - intros [H|[H _]]; auto.
+  - intros [H|H]; [auto|]. destruct (mem_bytes x a) eqn:E; [left; now apply mem_bytes_In|right; auto].
+Qed.
+
+Lemma answer_and_nil sc t live : answer sc t live (QAnd []) = Some (map fst live).
+Proof. reflexivity. Qed.
+Lemma answer_and_cons sc t live q qs :
+  answer sc t live (QAnd (q :: qs)) =
+  match answer sc t live q, answer sc t live (QAnd qs) with
+  | Some a, Some b => Some (ids_inter a b) | _, _ => None end.
+Proof. reflexivity. Qed.
+Lemma answer_or_nil sc t live : answer sc t live (QOr []) = Some [].
+Proof. reflexivity. Qed.
+Lemma answer_or_cons sc t live q qs :
+  answer sc t live (QOr (q :: qs)) =
+  match answer sc t live q, answer sc t live (QOr qs) with
+  | Some a, Some b => Some (ids_union a b) | _, _ => None end.
+Proof. reflexivity. Qed.
+
+Lemma answer_and_spec sc t live qs : forall r, answer sc t live (QAnd qs) = Some r ->
+  exists subs, Forall2 (fun q a => answer sc t live q = Some a) qs subs /\
+    forall x, mem_bytes x r = mem_bytes x (map fst live) && forallb (mem_bytes x) subs.
+Proof.
+  induction qs as [|q qs IH]; intros r H.
+  - rewrite answer_and_nil in H. inversion H; subst. exists []. split; [constructor|].
+    intros x. cbn. now rewrite andb_true_r.
+  - rewrite answer_and_cons in H.
+    destruct (answer sc t live q) as [a|] eqn:Ea; [|discriminate].
+    destruct (answer sc t live (QAnd qs)) as [b|] eqn:Eb; [|discriminate].
+    inversion H; subst. destruct (IH b eq_refl) as [subs [F Hm]].
+    exists (a :: subs). split; [now constructor|].
+    intros x. rewrite mem_ids_inter, Hm. cbn.
+    destruct (mem_bytes x a), (mem_bytes x (map fst live)); reflexivity.
+Qed.
+
+Lemma answer_or_spec sc t live qs : forall r, answer sc t live (QOr qs) = Some r ->
+  exists subs, Forall2 (fun q a => answer sc t live q = Some a) qs subs /\
+    forall x, mem_bytes x r = existsb (mem_bytes x) subs.
+Proof.
+  induction qs as [|q qs IH]; intros r H.
+  - rewrite answer_or_nil in H. inversion H; subst. exists []. split; [constructor|reflexivity].
+  - rewrite answer_or_cons in H.
+    destruct (answer sc t live q) as [a|] eqn:Ea; [|discriminate].
+    destruct (answer sc t live (QOr qs)) as [b|] eqn:Eb; [|discriminate].
+    inversion H; subst. destruct (IH b eq_refl) as [subs [F Hm]].
+    exists (a :: subs). split; [now constructor|].
+    intros x. rewrite mem_ids_union, Hm. reflexivity.
+Qed.
+
+(* ========================= remarks and refutations ======================== *)
+
+Lemma is_prefix_same_len a : forall b, length a = length b -> (is_prefix a b = true <-> a = b).
+Proof.
+  induction a as [|x a IH]; intros [|y b] Hl; cbn in *; try discriminate; [tauto|].
+  rewrite andb_true_iff, N.eqb_eq, IH by lia. split; [intros [-> ->]; reflexivity|].
+  intros E; inversion E; auto.
+Qed.
+
+Lemma enc_f64_length b : length (enc_f64 b) = 8%nat.
+Proof. unfold enc_f64, enc_f64_with. apply be_length. Qed.
+
+(* startsWith on a numeric index (refused by the API) behaves as equals in M *)
+Lemma int_startswith_is_equals hs q e : consistent in_i64 hs -> in_i64 q ->
+  exists r, int_search OP_PREFIX q e (int_run hs) = Some r /\
+    same_set r (fun n => stored_after hs n = Some q).
+Proof.
+  intros Hc Hq.
+  destruct (search_hist_keys enc_i64 dec_i64 Z.eqb in_i64 int_enc_veqb int_dec_valid int_dec_enc
+              hs OP_PREFIX q e Hc) as (r & R1 & R2 & R3); [unfold op_scan, OP_PREFIX; tauto|].
+  exists r. split; [exact R1|]. split; [exact R2|]. intros n. rewrite R3.
+  pose proof (run_stored_valid in_i64 hs Hc) as Hsv. split.
+  - intros [v [S1 S2]]. rewrite key_matches_prefix in S2.
+    apply is_prefix_same_len in S2; [|now rewrite !enc_i64_length].
+    apply (int_enc_veqb q v Hq (Hsv _ _ S1)) in S2. apply Z.eqb_eq in S2. now subst.
+  - intros S1. exists q. split; [exact S1|]. rewrite key_matches_prefix.
+    apply is_prefix_same_len; [now rewrite !enc_i64_length|reflexivity].
+Qed.
+
+Lemma hs_nz_two_consistent : consistent f64_valid hs_nz_two.
+Proof. vm_compute. repeat split. Qed.
+Lemma hs_nz_one_consistent : consistent f64_valid hs_nz_one.
+Proof. vm_compute. repeat split. Qed.
+
+(* F1: with the pinned float encoder the search theorem is false ... *)
+Lemma negzero_search_refuted :
+  ~ (forall hs op q e, consistent f64_valid hs -> f64_valid q -> f64_valid e -> op_num op ->
+       exists r, flt0_search op q e (flt0_run hs) = Some r /\
+         same_set r (fun n => exists v, stored_after hs n = Some v /\ matches_float op q e v = true)).
+Proof.
+  intros H.
+  destruct (H hs_nz_two OP_EQ 0 0 hs_nz_two_consistent) as (r & R1 & _ & R3);
+    [split; reflexivity|split; reflexivity|unfold op_num, OP_EQ; tauto|].
+  vm_compute in R1. inversion R1; subst.
+  assert (Hin : In 1 [2]).
+  { apply R3. exists two63. split; vm_compute; reflexivity. }
+  destruct Hin as [E|[]]. discriminate.
+Qed.
+
+(* ... and so is the postings invariant (one batch: the cache entry of -0.0 swallows +0.0) *)
+Lemma negzero_postings_refuted :
+  ~ (forall hs, consistent f64_valid hs ->
+       forall k n, In n (getset k (flt0_run hs)) <-> exists v, stored_after hs n = Some v /\ enc_f64_v0 v = k).
+Proof.
+  intros H. pose proof (proj1 (H hs_nz_one hs_nz_one_consistent (enc_f64_v0 two63) 2)) as H1.
+  destruct H1 as [v [S1 S2]]; [vm_compute; auto|].
+  vm_compute in S1. inversion S1; subst. vm_compute in S2. discriminate.
+Qed.
+
+Lemma negzero_facts :
+  flt0_search OP_EQ 0 0 (flt0_run hs_nz_two) = Some [2] /\             (* equals 0.0 misses -0.0 *)
+  flt0_search OP_LT bits_m1 bits_m1 (flt0_run hs_nz_two) = Some [1] /\  (* lessThan -1.0 returns -0.0 *)
+  matches_float OP_LT bits_m1 bits_m1 two63 = false /\
+  flt0_search OP_EQ 0 0 (flt0_run hs_nz_one) = Some [] /\              (* equals 0.0 finds nothing *)
+  flt_search OP_EQ 0 0 (flt_run hs_nz_two) = Some [1; 2] /\            (* repaired encoder *)
+  flt_search OP_EQ 0 0 (flt_run hs_nz_one) = Some [1; 2] /\
+  flt_search OP_LT bits_m1 bits_m1 (flt_run hs_nz_two) = Some [].
+Proof. vm_compute. repeat split. Qed.
+
+(* F2: folding only the start value of a range *)
+Lemma hs_fold_consistent : consistent any_str hs_fold.
+Proof. vm_compute. repeat split. Qed.
+
+Lemma range_fold_refuted :
+  ~ (forall fold hs op q e, consistent any_str hs -> op_scan op ->
+       exists r, str_search_v0 fold op q e (str_run fold hs) = Some r /\
+         same_set r (fun n => exists x, stored_after hs n = Some x /\
+                                        matches_str op (fold q) (fold e) (fold x) = true)).
+Proof.
+  intros H.
+  destruct (H ascii_lower hs_fold OP_RANGE [65] [67] hs_fold_consistent) as (r & R1 & _ & R3);
+    [unfold op_scan, OP_RANGE; tauto|].
+  vm_compute in R1. inversion R1; subst.
+  assert (Hin : In 1 (@nil N)).
+  { apply R3. exists [98]. split; vm_compute; reflexivity. }
+  destruct Hin.
+Qed.
+
+Lemma range_fold_facts :
+  str_search_v0 ascii_lower OP_RANGE [65] [67] (str_run ascii_lower hs_fold) = Some [] /\
+  str_search ascii_lower OP_RANGE [65] [67] (str_run ascii_lower hs_fold) = Some [1] /\
+  matches_str OP_RANGE (ascii_lower [65]) (ascii_lower [67]) (ascii_lower [98]) = true.
+Proof. vm_compute. repeat split. Qed.
+
+(* ========================= both backends, top level ======================= *)
+
+Lemma int_backends hs op q e : consistent in_i64 hs ->
+  int_search_mem op q e (int_run hs) = int_search op q e (int_run hs).
+Proof. intros Hc. apply backends_agree. exact (proj1 (int_postings_inv hs Hc)). Qed.
+Lemma flt_backends hs op q e : consistent f64_valid hs ->
+  flt_search_mem op q e (flt_run hs) = flt_search op q e (flt_run hs).
+Proof. intros Hc. apply backends_agree. exact (proj1 (flt_postings_inv hs Hc)). Qed.
+Lemma str_backends fold hs op q e : consistent any_str hs ->
+  str_search_mem fold op q e (str_run fold hs) = str_search fold op q e (str_run fold hs).
+Proof. intros Hc. apply backends_agree. exact (proj1 (str_postings_inv fold hs Hc)). Qed.
+
+(* ========================= the shape of the reference spec ================ *)
+(* Model_C02.leaf_matches is "the operator's predicate on the extracted field
+   value, false when the field is absent or ill-typed": the right-hand sides
+   of the search theorems with  stored n := the field of the document of n. *)
+
+Lemma leaf_int_shape sc t p op q e d : schema_get p sc = Some IInt ->
+  leaf_matches sc t (QInt p op q e) d =
+  Some (match field_int p d with Some x => matches_int op q e x | None => false end).
+Proof.
+  intros H. unfold leaf_matches, field_int. rewrite H.
+  destruct (prop_value p d) as [| |v]; try reflexivity. destruct v; reflexivity.
+Qed.
+
+Lemma leaf_f64_shape sc t p op q e d : schema_get p sc = Some IFloat ->
+  leaf_matches sc t (QFloat p op q e) d =
+  Some (match field_f64 p d with Some x => matches_float op q e x | None => false end).
+Proof.
+  intros H. unfold leaf_matches, field_f64. rewrite H.
+  destruct (prop_value p d) as [| |v]; try reflexivity. destruct v; reflexivity.
+Qed.
+
+Lemma leaf_str_shape sc t cs fold p op q e d : schema_get p sc = Some (IStr cs) ->
+  (forall s, fold_str cs t s = Some (fold s)) ->
+  leaf_matches sc t (QStr p op q e) d =
+  Some (match field_str p d with Some x => matches_str op (fold q) (fold e) (fold x) | None => false end).
+Proof.
+  intros H Hf. unfold leaf_matches, field_str. rewrite H, !Hf.
+  destruct (prop_value p d) as [| |v]; try reflexivity. destruct v; try reflexivity. now rewrite Hf.
+Qed.
+
+Lemma map_opt_total {A B} (f : A -> option B) (g : A -> B) l :
+  (forall x, f x = Some (g x)) -> map_opt f l = Some (map g l).
+Proof. intros H. induction l as [|x l IH]; cbn; [reflexivity|]. now rewrite H, IH. Qed.
+
+Lemma leaf_strarr_shape sc t cs fold p op qs d : schema_get p sc = Some (IStrArr cs) ->
+  (forall s, fold_str cs t s = Some (fold s)) -> qs <> [] -> op = OP_ALL \/ op = OP_ANY ->
+  leaf_matches sc t (QStrArr p op qs) d =
+  Some (if op =? OP_ALL then forallb (fun x => mem_bytes x (map fold (field_strs p d))) (map fold qs)
+        else existsb (fun x => mem_bytes x (map fold (field_strs p d))) (map fold qs)).
+Proof.
+  intros H Hf Hne Hop. unfold leaf_matches, field_strs. rewrite H.
+  rewrite (map_opt_total _ fold qs Hf).
+  assert (Hempty : Some false = Some (if op =? OP_ALL
+             then forallb (fun x => mem_bytes x (map fold [])) (map fold qs)
+             else existsb (fun x => mem_bytes x (map fold [])) (map fold qs))).
+  { destruct qs as [|q0 qs]; [congruence|]. destruct Hop as [-> | ->]; cbn; [reflexivity|].
+    f_equal. symmetry. clear. induction qs as [|x qs IH]; cbn; [reflexivity|exact IH]. }
+  destruct (prop_value p d) as [| |v]; try exact Hempty. destruct v; try exact Hempty.
+  rewrite (map_opt_total _ fold _ Hf).
+  destruct Hop as [-> | ->]; reflexivity.
+Qed.
+
+(* ========================= Go's map iteration order ======================= *)
+(* flush ranges over the set cache in unspecified order; the model uses creation
+   order.  With pairwise distinct keys (invariant ci_keys) any order gives the
+   same bucket contents. *)
+Section FlushOrder.
+  Context {V : Type}.
+  Variable enc : V -> bytes.
+
+  Lemma NoDup_map_inj {A B} (f : A -> B) l a b :
+    NoDup (map f l) -> In a l -> In b l -> f a = f b -> a = b.
+  Proof.
+    induction l as [|x l IH]; intros Hnd Ha Hb E; [destruct Ha|].
+    cbn in Hnd. inversion Hnd as [|? ? Hn1 Hn2]; subst.
+    destruct Ha as [<-|Ha], Hb as [<-|Hb]; auto.
+    - exfalso. apply Hn1. rewrite E. now apply in_map.
+    - exfalso. apply Hn1. rewrite <- E. now apply in_map.
+  Qed.
+
+  Lemma find_key_perm (c c' : @cache V) k :
+    Permutation c c' -> NoDup (map (ckey enc) c) ->
+    find (fun it => bytes_eqb k (ckey enc it)) c = find (fun it => bytes_eqb k (ckey enc it)) c'.
+  Proof.
+    intros Hp Hnd.
+    destruct (find (fun it => bytes_eqb k (ckey enc it)) c) as [it|] eqn:F;
+    destruct (find (fun it => bytes_eqb k (ckey enc it)) c') as [it'|] eqn:F'; try reflexivity.
+    - apply find_some in F. apply find_some in F'. destruct F as [F1 F2], F' as [F1' F2'].
+      apply bytes_eqb_eq in F2. apply bytes_eqb_eq in F2'. f_equal.
+      apply (NoDup_map_inj (ckey enc) c); auto.
+      + eapply Permutation_in; [apply Permutation_sym; exact Hp|exact F1'].
+      + congruence.
+    - apply find_some in F. destruct F as [F1 F2].
+      pose proof (find_none _ _ F' it (Permutation_in _ Hp F1)) as H. cbn in H. congruence.
+    - apply find_some in F'. destruct F' as [F1 F2].
+      pose proof (find_none _ _ F it' (Permutation_in _ (Permutation_sym Hp) F1)) as H. cbn in H. congruence.
+  Qed.
+
+  Lemma flush_order_irrelevant (c c' : @cache V) b :
+    Permutation c c' -> NoDup (map (ckey enc) c) ->
+    forall k, b_get k (flush enc c b) = b_get k (flush enc c' b).
+  Proof.
+    intros Hp Hnd k.
+    assert (Hnd' : NoDup (map (ckey enc) c')).
+    { eapply Permutation_NoDup; [|exact Hnd]. now apply Permutation_map. }
+    rewrite (flush_get enc c b k Hnd), (flush_get enc c' b k Hnd').
+    now rewrite (find_key_perm c c' k Hp Hnd).
+  Qed.
+End FlushOrder.
